@@ -602,38 +602,111 @@ namespace c17
             for (int step = 0; step < nsteps; ++step)
             {
                 Call c = chooseCall(cur.pts.size(), oracleLength(cur.pts));
-                setContext(k, step, c.name, c.params, cur.pts.size());
-                bool ret = c.run(ps, path);
-                Facts aft = measure(path);
-                json r{{"e", c.name},
-                       {"chain", k},
-                       {"step", step},
-                       {"p", c.params},
-                       {"ret", ret},
-                       {"metric", metric},
-                       {"goal", withGoal},
-                       {"obj", objName},
-                       {"nBefore", cur.pts.size()},
-                       {"nAfter", aft.pts.size()},
-                       {"lenBefore", cur.len},
-                       {"lenAfter", aft.len},
-                       {"costBefore", cur.cost},
-                       {"costAfter", aft.cost},
-                       {"validBefore", ok},
-                       {"validAfter", aft.finite && aft.dense},
-                       {"checkBefore", cur.check},
-                       {"checkAfter", aft.check},
-                       {"finite", aft.finite},
-                       {"firstKept", !aft.pts.empty() && same(aft.pts.front(), cur.pts.front())},
-                       {"lastKept", !aft.pts.empty() && same(aft.pts.back(), cur.pts.back())},
-                       {"lastIsGoal", !aft.pts.empty() && isGoalPoint(aft.pts.back())},
-                       {"changed", !samePts(aft.pts, cur.pts)}};
-                emit(r);
-                if (!aft.finite || aft.pts.empty())
+                if (!runCall(c, step, ps, path, cur, ok, withGoal))
                     return;
-                ok = ok && aft.dense;
-                cur = aft;
             }
+        }
+
+        // one routine call and its report; false when the chain cannot go on
+        bool runCall(const Call &c, int step, og::PathSimplifier &ps, og::PathGeometric &path, Facts &cur, bool &ok, bool withGoal)
+        {
+            setContext(k, step, c.name, c.params, cur.pts.size());
+            bool ret = c.run(ps, path);
+            Facts aft = measure(path);
+            json r{{"e", c.name},
+                   {"chain", k},
+                   {"step", step},
+                   {"p", c.params},
+                   {"ret", ret},
+                   {"metric", metric},
+                   {"goal", withGoal},
+                   {"obj", objName},
+                   {"nBefore", cur.pts.size()},
+                   {"nAfter", aft.pts.size()},
+                   {"lenBefore", cur.len},
+                   {"lenAfter", aft.len},
+                   {"costBefore", cur.cost},
+                   {"costAfter", aft.cost},
+                   {"validBefore", ok},
+                   {"validAfter", aft.finite && aft.dense},
+                   {"checkBefore", cur.check},
+                   {"checkAfter", aft.check},
+                   {"finite", aft.finite},
+                   {"firstKept", !aft.pts.empty() && same(aft.pts.front(), cur.pts.front())},
+                   {"lastKept", !aft.pts.empty() && same(aft.pts.back(), cur.pts.back())},
+                   {"lastIsGoal", !aft.pts.empty() && isGoalPoint(aft.pts.back())},
+                   {"changed", !samePts(aft.pts, cur.pts)}};
+            emit(r);
+            if (!aft.finite || aft.pts.empty())
+                return false;
+            ok = ok && aft.dense;
+            cur = aft;
+            return true;
+        }
+
+        // ---- probe: the combined routine interrupted by its termination condition.  A planner
+        // path pulled tight against the obstacles by shortcutting (usually still accepted by check())
+        // is handed to simplify with a condition that fires a few evaluations into the first pass.
+        void runInterruptProbe()
+        {
+            world = W.w[pick<int>({0, 0, 1, 2, 2})].get();
+            metric = true;
+            si = makeSI(*world, true);
+            objName = rng.below(3) ? "len" : "field";
+            makeObjective();
+            const bool withGoal = rng.below(2) == 0;
+            P2 start;
+            std::vector<P2> goals;
+            Pts in;
+            std::string src = pick<std::string>({"rrtconnect", "rrt", "prm"});
+            setContext(k, -1, "planner " + src, json::object(), 0);
+            if (!query(start, goals) || !plan(src, start, goals, in))
+                return;
+            if (withGoal)
+            {
+                goalPts = goals;
+                goal = std::make_shared<ob::GoalStates>(si);
+                ob::State *s = si->allocState();
+                for (auto &g : goalPts)
+                {
+                    setXY(s, g);
+                    goal->addState(s);
+                }
+                si->freeState(s);
+            }
+            og::PathGeometric path = toPath(in);
+            og::PathSimplifier ps(si, goal, obj);
+            Facts cur = measure(path);
+            bool ok = cur.finite && oracleStrictValid(*world, cur.pts);
+            emit(json{{"e", "NewPath"}, {"chain", k}, {"world", world->name}, {"src", "probe-interrupt-" + src}, {"n", cur.pts.size()},
+                      {"len", cur.len}, {"cost", cur.cost}, {"valid", ok}, {"check", cur.check}, {"finite", cur.finite},
+                      {"metric", metric}, {"goal", withGoal}, {"obj", objName}, {"dense", cur.dense}});
+            {
+                json xs = json::array(), ys = json::array();
+                for (auto &q : cur.pts)
+                {
+                    xs.push_back(hexd(q.x));
+                    ys.push_back(hexd(q.y));
+                }
+                emit(json{{"e", "Input"}, {"chain", k}, {"xs", xs}, {"ys", ys}});
+            }
+            int step = 0;
+            if (rng.below(4) != 0)
+            {
+                // shortcutting leaves segments tangent to the (inflated) obstacles: splitting such a
+                // segment again is what makes check() re-discretise it unfavourably
+                Call tighten{"partialShortcutPath", json{{"maxSteps", 300}, {"maxEmptySteps", 300}, {"rangeRatioPm", 1000}, {"snapPm", 5}},
+                             [](og::PathSimplifier &s, og::PathGeometric &p) { return s.partialShortcutPath(p, 300, 300, 1.0, 0.005); }};
+                if (!runCall(tighten, step++, ps, path, cur, ok, withGoal))
+                    return;
+            }
+            long fire = pick<long>({2, 3, 4, 5, 6, 7, 9, 11, 14});
+            Call c{"simplify", json{{"ptcAfter", fire}, {"atLeastOnce", false}}, [fire](og::PathSimplifier &s, og::PathGeometric &p) {
+                       long cnt = 0;
+                       ob::PlannerTerminationCondition ptc([&cnt, fire] { return ++cnt > fire; });
+                       return s.simplify(p, ptc, false);
+                   }};
+            runCall(c, step++, ps, path, cur, ok, withGoal);
         }
 
         // ---- probes: two classes of the quantifier that used to end in an out-of-bounds read
@@ -785,6 +858,8 @@ namespace c17
         Chain c(W, k, tr, seed);
         if (k % 500 == 499)
             c.runProbe();
+        else if (k % 10 == 3)
+            c.runInterruptProbe();
         else if (k % 7 == 6)
             c.runHybridSession();
         else
